@@ -281,7 +281,7 @@ def edges_for(name, workdir, timeout=3000):
     return path, time.time() - t0
 
 
-def replay_edges(binp, name, workdir, sample_lines_target, seed):
+def replay_edges(binp, name, workdir, sample_lines_target, seed, tag=""):
     """returns [(trace path, stats)] - one per replay target (the ownership machine runs against both contracts)"""
     path, _ = edges_for(name, workdir)
     nedges = int(subprocess.run(["grep", "-c", "^\"EDGE ", path], stdout=subprocess.PIPE, text=True).stdout.strip() or 0)
@@ -291,7 +291,7 @@ def replay_edges(binp, name, workdir, sample_lines_target, seed):
     res = []
     K = 8 if nedges > 20000 else 1
     for target in resolve(name)[2]:
-        out = os.path.join(workdir, f"tree-{name}-{target}.ndjson")
+        out = os.path.join(workdir, f"tree-{name}-{target}{tag}.ndjson")
         t0 = time.time()
         procs = []
         for k in range(K):
@@ -368,6 +368,7 @@ PLANS = {
     "C16": plan(["flow_q", "gate_q"], ["flow_t", "ibc_t", "gate_t"], ["flow_treasury_q", "ibc_q", "gate_q", "own", "treasury_q"],
                 ["flow_t", "flow_treasury_t", "ibc_t", "gate_t", "own_t", "treasury_t"], W_Q, W_T,
                 wide={"quick": [(30, 60, 0), (30, 60, 1)], "thorough": [(400, 80, 0), (400, 80, 1)]}),
+    "C19": plan(["flow_q"], ["flow_t"], ["flow_q"], ["flow_t"], [("chaos", 8, 60)], [("chaos", 100, 70)]),
     "C15": plan(["flow_q", "flow_treasury_q"], ["flow_t", "flow_treasury_t"], ["flow_q", "flow_treasury_q"], ["flow_t", "flow_treasury_t"], W_Q, W_T),
 }
 LEVEL = "model_checking"
@@ -439,7 +440,49 @@ def hook_c04(binp, tier, seed, wd):
     return extra, viols
 
 
-HOOKS = {"C04": hook_c04}
+def hook_c19(binp, tier, seed, wd):
+    """both cargo feature configurations: same tests and seeds through both builds; each trace validated by
+    Trace.tla (wire atoms), the pair by DualTrace.tla (identical modulo the token-factory type URLs)"""
+    extra, viols = {}, []
+    bin_mw = build(True)
+    pairs = []
+    name = "flow_q" if tier == "quick" else "flow_t"
+    path, _ = edges_for(name, wd)
+    nedges = int(subprocess.run(["grep", "-c", "^\"EDGE ", path], stdout=subprocess.PIPE, text=True).stdout.strip() or 0)
+    outs = {}
+    for tag, b in (("osmosis", binp), ("miniwasm", bin_mw)):
+        (out, st), = replay_edges(b, name, wd, 1200 if tier == "quick" else 8000, seed, tag="-" + tag)
+        outs[tag] = out
+        extra[f"tree_{tag}"] = {k: st[k] for k in ("executed", "mismatches", "lines")}
+    pairs.append(("tree", outs["osmosis"], outs["miniwasm"]))
+    for mode, runs, steps in ([("chaos", 8, 60), ("honest", 6, 60)] if tier == "quick" else [("chaos", 100, 70), ("honest", 60, 70), ("admin", 60, 70)]):
+        fa, fb = os.path.join(wd, f"dual-{mode}-osmosis.ndjson"), os.path.join(wd, f"dual-{mode}-miniwasm.ndjson")
+        mwh(binp, ["walk", fa, seed, runs, steps, mode])
+        mwh(bin_mw, ["walk", fb, seed, runs, steps, mode])
+        pairs.append((mode, fa, fb))
+    nl = 0
+    dual_find = []
+    for tag, fa, fb in pairs:
+        rc, out, wall = tlc(os.path.join(SPEC, "DualTrace.tla"), os.path.join(SPEC, "DualTrace.cfg"), wd,
+                            env={"TRACE_A": fa, "TRACE_B": fb}, timeout=1800, xmx="8g")
+        if "TRACE-CONSUMED" not in out:
+            raise ToolError("DualTrace did not consume the pair " + tag + "\n" + out[-2000:])
+        n = sum(1 for _ in open(fa))
+        nl += n
+        fs = [json.loads(unq(m2.group(1))) for m2 in (FIND_RE.match(x.strip()) for x in out.splitlines()) if m2]
+        log(f"[dual] {tag}: {n} line pairs (osmosis vs miniwasm build) compared by DualTrace in {wall:.1f}s: {len(fs)} differing lines")
+        if fs:
+            dual_find.append((tag, fb, fs[0]))
+    extra["dual_line_pairs_compared"] = nl
+    extra["dual_differing_pairs"] = len(dual_find)
+    for tag, fb, f in dual_find:
+        viols.append((f"dual-{tag}", fb, f))
+    # the miniwasm traces are also validated individually (wire atoms) by the caller through extra_traces
+    extra["_extra_traces"] = [(fb, f"miniwasm-{tag}") for tag, fa, fb in pairs]
+    return extra, viols
+
+
+HOOKS = {"C04": hook_c04, "C19": hook_c19}
 
 
 def run_property(prop, tier, seed):
@@ -460,7 +503,7 @@ def run_property(prop, tier, seed):
     for r in pl["reach"]:
         reach_check(r, wd)
     # 2. TLC-generated transitions replayed through the real code
-    traces = []
+    traces = [tuple(x) for x in hook_extra.pop("_extra_traces", [])]
     replays = []
     for n in pl["emit"][tier]:
         for out, st in replay_edges(binp, n, wd, 1500 if tier == "quick" else 20000, seed):
